@@ -65,6 +65,11 @@ CHECKS = {
         technique="TLA+ exists-a-split semantics of IRDL operation definitions (OpDefVerify.tla) evaluated by TLC as reference for verify() and the generated accessors of dynamically created real op classes",
         text="Seeded definitions (operand/result/region segments single/optional/variadic, constraints any/eq/shared type variable, options none/same-size/attribute-sized) become real classes through irdl_op_definition; raw instances (incl. missing, wrong-length, negative and non-summing size arrays) are verified for real and TLC decides Accepts by enumerating segment splits and variable bindings; constructor-built instances must verify; each accessor must return the segment of the unique split TLC computes.",
         note="Trusted: OpDefVerify.tla; successor segments and attribute/property constraints other than the size arrays are not generated; definitions the library refuses at class creation are skipped."),
+    "C09": dict(
+        category="exploration", design_ref="DESIGN.md §3.9, §4 C09",
+        technique="TLA+ set semantics of IRDL attribute constraints with variable contexts (Constraints.tla) evaluated by TLC as reference for verifies()/infer() of real constraint objects built raw, through the simplifying constructors and from type hints",
+        text="Seeded constraint trees (any/base/eq/set/anyof/allof/param/var, depth <=3) are built for real three ways (raw dataclasses; AnyOf.get / ParamAttrConstraint.get / AttrSetConstraint.get; the | and & operators - i.e. with and without union flattening/merging); verifies() on 18 builtin attributes is compared by TLC with Accepts; wherever can_infer() holds the inferred attribute must satisfy the constraint in the given context; constraints derived from type hints are compared with isa() and with the model of the hint.",
+        note="Trusted: Constraints.tla; attributes serialised structurally (class, bases, parameters, payload). One open finding (AllOf.infer) keyed by clause + presence of an AllOf node."),
 }
 
 NOT_APPLICABLE = {
